@@ -790,8 +790,8 @@ def cte_cases():
     for cls in CTXS:
         for body in ("plain", "setop", "setop_joined"):
             for selfref in (False, True):
-                if body == "plain" and selfref:
-                    continue  # a body without a set operation cannot be recursive in any dialect: not a meaningful statement
+                # (a plain body that reads a source of the CTE's own name is not recursive - no dialect has recursion without a set
+                # operation: the name means the real table there, e.g. WITH t AS (SELECT .. FROM t WHERE ..))
                 yield {"family": "cte", "cls": cls, "body": body, "selfref": selfref}
 
 
@@ -816,7 +816,7 @@ def check_cte(case):
         return [(mksig("cte", cls, "raises", type(e).__name__), repr(e))]
     toks = lex.lex(sql, cls)
     has = len(toks) > 1 and toks[0].kind == "word" and toks[0].value == "WITH" and toks[1].kind == "word" and toks[1].value == "RECURSIVE"
-    want = case["selfref"] and cls not in ("mssql", "oracle")
+    want = case["selfref"] and case["body"] != "plain" and cls not in ("mssql", "oracle")
     if has and not want:
         why = "no_such_keyword" if cls in ("mssql", "oracle") else "not_recursive"
         return [(mksig("wellformed", "mssql_oracle" if why == "no_such_keyword" else "any", "with_recursive", why), "%s: %r" % (why, sql))]
